@@ -276,6 +276,7 @@ type run struct {
 	gen     int
 	dead    bool // structure damaged or a crash was recorded: stop the case
 	twoKid  bool
+	spent   map[int]bool // iterators that have returned false
 	onDel   bool
 }
 
@@ -287,7 +288,7 @@ func newRun(c *hx.Ctx) *run {
 }
 
 func newRunNoReset(c *hx.Ctx) *run {
-	return &run{c: c, s: newState(), present: map[int]bool{}, xpres: map[string]map[int]bool{}}
+	return &run{c: c, s: newState(), present: map[int]bool{}, xpres: map[string]map[int]bool{}, spent: map[int]bool{}}
 }
 
 func (r *run) do(op string) string { return r.doWith(op, true) }
@@ -374,6 +375,9 @@ func (r *run) doWith(op string, guarded bool) string {
 			r.c.Note("iter:true")
 		} else {
 			r.c.Note("iter:false")
+			if ws[0] == "next" || ws[0] == "adv" {
+				r.spent[atoi(ws[1])] = true
+			}
 		}
 	}
 	return ans
@@ -382,6 +386,28 @@ func (r *run) doWith(op string, guarded bool) string {
 func itKey(it *search.VerifIter) int {
 	k, _, _ := it.Value()
 	return k
+}
+
+// pickIter returns an open iterator, preferring ones that have not finished; -1 = open a new one.
+func (r *run) pickIter(rd *hx.Rand) int {
+	var live []int
+	for i := range r.s.iters {
+		if !r.spent[i] {
+			live = append(live, i)
+		}
+	}
+	n := len(r.s.iters)
+	switch {
+	case n == 0:
+		return -1
+	case len(live) == 0 && n < 8:
+		return -1
+	case len(live) > 0 && len(live) < 3 && n < 8 && rd.Chance(1, 8):
+		return -1
+	case len(live) > 0 && !rd.Chance(1, 10):
+		return live[rd.Intn(len(live))]
+	}
+	return rd.Intn(n) // sometimes a finished one: it must stay finished for Next
 }
 
 func (r *run) nextGen() int { r.gen++; return r.gen }
@@ -448,16 +474,16 @@ func randomOps(r *run, rd *hx.Rand, space, nops int, delBias int) {
 				r.del(rd.Intn(space))
 			}
 		case x < 80:
-			if len(r.s.iters) == 0 || (len(r.s.iters) < 4 && rd.Chance(1, 8)) {
+			if i := r.pickIter(rd); i < 0 {
 				r.do("begin")
 			} else {
-				r.do(fmt.Sprintf("next %d", rd.Intn(len(r.s.iters))))
+				r.do(fmt.Sprintf("next %d", i))
 			}
 		case x < 90:
-			if len(r.s.iters) == 0 {
+			if i := r.pickIter(rd); i < 0 {
 				r.do("begin")
 			} else {
-				r.do(fmt.Sprintf("adv %d %d", rd.Intn(len(r.s.iters)), rd.Intn(space+2)))
+				r.do(fmt.Sprintf("adv %d %d", i, rd.Intn(space+2)))
 			}
 		case x < 95:
 			r.do(fmt.Sprintf("get %d", rd.Intn(space)))
@@ -473,6 +499,17 @@ func chaseIterator(r *run, rd *hx.Rand, space, rounds int) {
 	r.do("begin")
 	i := len(r.s.iters) - 1
 	for n := 0; n < rounds && !r.dead; n++ {
+		if r.spent[i] && len(r.s.iters) < 8 && rd.Chance(2, 3) {
+			if len(r.present) < 2 {
+				for _, k := range rd.Perm(space) {
+					if rd.Chance(1, 2) {
+						r.ins(k)
+					}
+				}
+			}
+			r.do("begin")
+			i = len(r.s.iters) - 1
+		}
 		if rd.Chance(1, 6) {
 			r.do(fmt.Sprintf("adv %d %d", i, rd.Intn(space+2)))
 		} else {
@@ -519,7 +556,7 @@ func chaseIterator(r *run, rd *hx.Rand, space, rounds int) {
 func listCase(c *hx.Ctx) {
 	rd := c.Rand
 	r := newRun(c)
-	spaces := []int{4, 8, 16, 16}
+	spaces := []int{4, 8, 16, 16, 32}
 	nmax := 60
 	if c.Thorough() {
 		spaces = []int{4, 8, 16, 32, 64, 64}
@@ -789,7 +826,7 @@ func main() {
 	defer guard.stop()
 	hx.Main(hx.Family{
 		Name:     "c07",
-		Rule:     "edit histories (insert / delete / re-insert, payload = a per-case counter) on a real treeList over key spaces 4..16 (thorough: ..64) with up to 4 open iterators stepped by Next/Advance between the edits; 10 shapes: general mix, monotone build + deletes from the ends, full tree + mostly inner deletions, iterator chasing (delete / re-insert exactly the key under the iterator, empty the list under it), tiny lists emptied and refilled, grow-shrink-grow; one case in five is a TreeIndex history (Add/Remove with 1..3 tokens, iterators from Begin(token)); thorough also enumerates every history of length 5 over {ins 0..3, del 0..3, next, adv 1, adv 3} from three starting lists with one open iterator. non-trivial = the history deletes a node with two children or calls an iterator standing on a deleted node; distinct = by hash of the op text",
+		Rule:     "edit histories (insert / delete / re-insert, payload = a per-case counter) on a real treeList over key spaces 4..32 (thorough: ..64) with up to 8 open iterators (a finished one is usually replaced by a new one) stepped by Next/Advance between the edits; 10 shapes: general mix, monotone build + deletes from the ends, full tree + mostly inner deletions, iterator chasing (delete / re-insert exactly the key under the iterator, empty the list under it), tiny lists emptied and refilled, grow-shrink-grow; one case in five is a TreeIndex history (Add/Remove with 1..3 tokens, iterators from Begin(token)); thorough also enumerates every history of length 5 over {ins 0..3, del 0..3, next, adv 1, adv 3} from three starting lists with one open iterator. non-trivial = the history deletes a node with two children or calls an iterator standing on a deleted node; distinct = by hash of the op text",
 		Quick:    2500,
 		Thorough: exhCount() + 8000,
 		Corpus:   corpus,
